@@ -21,6 +21,55 @@ CHECKS = {
     ),
 }
 
+EXPL = ('Exploration only: no absence claim beyond the sizes, modes and case counts reported in the evidence; '
+        'sensitivity against seeded changes is recorded in DESIGN.md section 7.')
+
+CHECKS.update({
+    'C01': (
+        'property-based testing: Hypothesis type-directed expression generator (random operands, pattern and near-miss snippets) with a metamorphic oracle (reduce() vs the unreduced expression) and a rule-call counter for termination',
+        'Generated search over typed operator expression trees (chains, sums, blocks, transposes, scalar multiples, '
+        'lazy inverses; both 64-bit modes): reduce() must not raise, must terminate within a bounded number of rule '
+        'calls, keep the declared structures and agree with the unreduced operator on all basis / probe vectors within '
+        'a forward error bound. Every registered rule is required to fire in the thorough tier. ' + EXPL,
+        'Trusts eager application of the unreduced operator as the reference for "the same map" (the numpy model is only used for the error scale); small sizes; float32/float64.',
+        'DESIGN.md section 4 (C01)'),
+    'C02': (
+        'property-based testing: Hypothesis arithmetic-tree generator with a numpy matrix-arithmetic reference model, plus generated ill-typed operand pairs that must be rejected',
+        'Generated arithmetic trees over @ + - unary +/- and scalar multiples/divisions with every operand kind on '
+        'either side are compared with numpy arithmetic on the operand matrices; generated structurally incompatible '
+        'pairs (every ordered pair of operand kinds x kind of mismatch) and non-scalar scalars must raise. ' + EXPL,
+        'Trusts the numpy reference model of the leaf operators (itself cross-validated by C03/C04/C11-C15 checks).',
+        'DESIGN.md section 4 (C02)'),
+    'C03': (
+        'property-based testing: Hypothesis expression generator with a numpy transposed-matrix oracle, the adjoint identity on integer vectors and a differential check hand-written vs generic (jax.linear_transpose) transpose',
+        'For generated operators and composites op.T must have swapped structures, denote the transposed numpy '
+        'matrix, op.T.T must denote the matrix again, <Ax,y> = <x,A^T y>, and the generic TransposeOperator must '
+        'agree with every hand-written transpose. ' + EXPL,
+        'Transposes of iterative inverses excluded as in the property; numpy reference model trusted.',
+        'DESIGN.md section 4 (C03)'),
+    'C04': (
+        'property-based testing: Hypothesis expression generator (half of the cases with an as_matrix-overriding class on top) against a numpy matrix assembled in the documented leaf/row-major order; metamorphic linearity check',
+        'op(a x + b y) = a op(x) + b op(y); op.as_matrix(), the generic column-by-column as_matrix and op.mv are all '
+        'compared with the numpy denotation assembled in pytree-leaf, row-major order. ' + EXPL,
+        'numpy reference model trusted; generic as_matrix run on inputs of <= 12 elements (XLA compile per call). Complex-valued operator data not generated.',
+        'DESIGN.md section 4 (C04)'),
+    'C05': (
+        'property-based testing: Hypothesis expression generator over float32/float64/mixed-dtype pytrees with a four-way structure agreement oracle (declared vs actual vs traced vs pure-python structure rule)',
+        'For op, op.T, op.reduce() (and op.I): out_structure() == structure of mv(x) == jax.eval_shape(mv) == the '
+        'harness structure rule, exactly (tree, shapes, dtypes); sizes and promoted dtypes agree. One known finding '
+        '(mixed-dtype P.T@P reduction) is reported as KNOWN-FINDING. ' + EXPL,
+        'Operator parameters no wider than the data dtype, as the property states.',
+        'DESIGN.md section 4 (C05)'),
+    'C10': (
+        'property-based testing: Hypothesis block-container generator (arity 1-4, nested/dict/bare containers, pytree-valued blocks, products with equal and one-side-nested layouts, ill-formed rows/columns) against numpy hstack/vstack/block-diagonal',
+        'Block row/diag/column operators are compared with the stacked numpy matrices of their blocks (mv, as_matrix, '
+        'structures), transposes and block-wise inverses by class and value, ill-formed constructions must raise '
+        'ValueError, products of block operators must reduce without error, keep the value and (equal layouts) have '
+        'the documented class. ' + EXPL,
+        'numpy reference model trusted; sizes <= ~48 elements.',
+        'DESIGN.md section 4 (C10)'),
+})
+
 NOT_YET = 'check not built yet in this round (planned, see DESIGN.md section 4)'
 
 
